@@ -65,6 +65,7 @@ type Job struct {
 	Params map[string]int64
 
 	Paths, Forks, Obligations, Discharged, Inconclusive, Panics, Pruned int64
+	stopped                                                         int64 // set when a livelock was found: the rest of the schedule tree is not explored
 
 	mu         sync.Mutex
 	viol       map[string]*Violation
